@@ -141,8 +141,8 @@ def gen_prng(kind, streams):
         op = 'req'
         if r > 0.78 and nloads < max_loads:
             op = 'load'
-        if flt.random() < fault_rate * 0.15:
-            op = 'both'
+        if flt.random() < 0.04 + fault_rate * 0.3:
+            op = 'both'          # load and req in the same cycle
         if flt.random() < fault_rate:
             p = {'op': op, 'wait': False, 'gap': flt.randrange(0, prev_lat + 2)}
         else:
